@@ -448,12 +448,11 @@ fn check_object_array(r: &mut Run<'_>, xs: &[RVal]) {
             move || json!({"kind": "array-filter", "x": x.to_json(), "p": p, "family": "objects"})
         };
         // map: in order, exactly the properties of the objects that have the property.
-        // An object whose property is present but nil may count either way (statement silent).
         if let Some(d) = r.eval("map", &t.map, &o, &rp) {
+            // an object whose property is present but nil HAS the property: its (nil) entry stays
             let strict: Vec<String> = xs.iter().filter_map(|v| prop_of(v, p)).map(|v| v.dump()).collect();
-            let lax: Vec<String> = xs.iter().filter_map(|v| prop_of(v, p)).filter(|v| !v.is_nil()).map(|v| v.dump()).collect();
             let el = split_array_dump(&d).unwrap_or_default();
-            if el != strict && el != lax {
+            if el != strict {
                 r.fail("map:wrong", format!("{xd} | map: '{p}' = {d}, reference = [{}]", strict.join(",")), &rp);
             }
         } else {
@@ -670,6 +669,34 @@ pub fn run(ctx: &mut Ctx) {
             check_slice_concat(&mut r, xs, &ys);
         }
     });
+    // non-array inputs: nil is the empty sequence, any other scalar or an object a singleton
+    // (the contract of the shared `as_sequence` helper named in the property's anchors)
+    for (k, x) in [RVal::Bool(false), RVal::Bool(true), RVal::Int(0), s(""), s("a"), RVal::Float(1.5), obj(vec![("p", RVal::Int(1))]), RVal::Nil, RVal::Empty].iter().enumerate() {
+        if !r.ctx.mine_idx(k as u64) {
+            continue;
+        }
+        let mut o = Object::new();
+        o.insert("x".into(), x.to_liquid());
+        let rp = {
+            let x = x.clone();
+            move || json!({"kind": "array-filter", "x": x.to_json(), "family": "scalar-input"})
+        };
+        for (name, tpl) in [("sort", &t.sort), ("sort_natural", &t.sort_natural)] {
+            if let Some(d) = r.eval(name, tpl, &o, &rp) {
+                let want = match x {
+                    RVal::Nil => "[]".to_string(),
+                    // the empty/blank markers are query symbols: not claimed
+                    RVal::Empty | RVal::Blank => d.clone(),
+                    other => format!("[{}]", other.dump()),
+                };
+                if d != want {
+                    r.fail(&format!("{name}:scalar-input-not-a-singleton"), format!("{} | {name} = {d}, expected {want}", x.dump()), &rp);
+                }
+            }
+        }
+        r.ctx.record(hash_str(&format!("scalar-input{}", x.dump())), true);
+        r.ctx.count("family:scalar-input");
+    }
     // random longer arrays, every initial order, homogeneous and mixed
     let n = r.ctx.scale(60_000u64, 1_000_000u64);
     let rng = r.ctx.rng("c14-random");
